@@ -18,6 +18,7 @@ import (
 	"os"
 	"sort"
 	"strings"
+	"sync"
 	"time"
 
 	"github.com/risor-io/risor"
@@ -69,7 +70,11 @@ func main() {
 		multi := map[string]int{} // code:ip -> first height; detects pc-dependent-only violation directly
 		conflict := ""
 		steps := 0
+		// threads a program starts (go / spawn) run on VM clones and call the hook concurrently
+		var traceMu sync.Mutex
 		traceFn := func(codeID string, ip int, h int) {
+			traceMu.Lock()
+			defer traceMu.Unlock()
 			steps++
 			k := fmt.Sprintf("%s:%d", hex.EncodeToString([]byte(codeID)), ip)
 			if h0, ok := multi[k]; ok {
@@ -101,8 +106,13 @@ func main() {
 			printFn := object.NewBuiltin("print", func(ctx context.Context, args ...object.Object) object.Object {
 				return object.Nil
 			})
-			globals := map[string]any{"len": builtins.Builtins()["len"], "print": printFn, "try": builtins.Builtins()["try"],
-				"error": builtins.Builtins()["error"]}
+			// every builtin function of package builtins (pure: conversions, containers, try / error, chan, ...) - the
+			// expression-form programs use them; print is silenced
+			globals := map[string]any{}
+			for name, b := range builtins.Builtins() {
+				globals[name] = b
+			}
+			globals["print"] = printFn
 			opts := []risor.Option{risor.WithoutDefaultGlobals(), risor.WithGlobals(globals), risor.WithConcurrency()}
 			if moddir != "" {
 				opts = append(opts, risor.WithLocalImporter(moddir))
@@ -125,15 +135,19 @@ func main() {
 			}
 		}()
 		vm.VerifTrace = nil
+		// a thread the program left running may still be inside the callback
+		traceMu.Lock()
 		keys := make([]string, 0, len(seen))
 		for k := range seen {
 			keys = append(keys, k)
 		}
+		nsteps, conflictNow := steps, conflict
+		traceMu.Unlock()
 		sort.Strings(keys)
 		if mode == "outcome" {
 			fmt.Fprintf(w, "%s\tsp=%d\n", outcome, finalSP)
 			continue
 		}
-		fmt.Fprintf(w, "%s\tsteps=%d;sp=%d\tconflict=%s\t%s\n", outcome, steps, finalSP, conflict, strings.Join(keys, ","))
+		fmt.Fprintf(w, "%s\tsteps=%d;sp=%d\tconflict=%s\t%s\n", outcome, nsteps, finalSP, conflictNow, strings.Join(keys, ","))
 	}
 }
